@@ -542,6 +542,105 @@ fn run(ctx: &mut Ctx) {
             }
         }
     }
+    // commodity names outside ASCII: every character U+00A1..=U+FFFF that is neither white space nor a control character
+    // (62 k) as a one-character commodity `c` and as `Xc`: ((1 c + 2 c) * 2 - 1 Xc) is 6 c - 1 Xc, through `eval` and as a
+    // posting amount (same commodity combines, different commodities stay apart - whatever script the name is written in)
+    {
+        let block = 64u32;
+        let mut start = 0xA1u32;
+        while start <= 0xFFFF {
+            let end = (start + block - 1).min(0xFFFF);
+            let chars: Vec<char> = (start..=end).filter_map(char::from_u32).filter(|c| !c.is_whitespace() && !c.is_control()).collect();
+            start = end + 1;
+            if chars.is_empty() {
+                continue;
+            }
+            if !ctx.next_is_mine() {
+                ctx.skip_cases(1);
+                continue;
+            }
+            ctx.case(
+                || format!("one-character commodity names U+{:04X}..=U+{:04X}: ((1 c + 2 c) * 2 - 1 Xc)", chars[0] as u32, *chars.last().unwrap() as u32),
+                || {
+                    for c in &chars {
+                        let xc = format!("X{}", c);
+                        let text = format!("((1 {} + 2 {}) * 2 - 1 {})", c, c, xc);
+                        let ledger = format!("2020/01/01 declare\n  Z  0 {}\n  Z  0 {}\n\n2024/01/01 t\n  A  ((1 {} + 2 {}) * 2)\n  B\n", c, xc, c, c);
+                        let got: Result<(QMap, QMap), String> = oka::with_ledger(&[(oka::ROOT, ledger.as_str())], oka::ROOT, None, |r| match r {
+                            Err(e) => Err(format!("ledger rejected: {}", e.variant)),
+                            Ok((l, cx)) => {
+                                let ev = l.eval(cx, &text, &EvalContext { date: oka::date(2024, 1, 1), exchange: None }).map(|a| oka::amount_to_qmap(&a)).map_err(|e| format!("eval: {:?}", e))?;
+                                let post = oka::txn_views(l).last().map(|t| t.postings[0].amount.clone()).ok_or_else(|| "no transaction".to_string())?;
+                                Ok((ev, post))
+                            }
+                        });
+                        let want: QMap = [(c.to_string(), Q::int(6)), (xc.clone(), Q::int(-1))].into_iter().collect();
+                        match got {
+                            Err(e) => return Outcome::violation("unicode-commodity/well-typed-rejected", format!("U+{:04X}: {} - {}", *c as u32, text, e)),
+                            Ok((ev, post)) => {
+                                let want_post: QMap = [(c.to_string(), Q::int(6))].into_iter().collect();
+                                if ev != want || post != want_post {
+                                    return Outcome::violation("unicode-commodity/value-differs", format!("U+{:04X}: {} evaluated to {} (eval) / {} (posting), expected {}", *c as u32, text, qmap_show(&ev), qmap_show(&post), qmap_show(&want)));
+                                }
+                            }
+                        }
+                    }
+                    Outcome::pass("unicode-commodity/block-ok")
+                },
+            );
+        }
+    }
+    // literals beyond 64 bits inside expressions: 19..=28 significant digits, with and without a decimal point
+    {
+        let lits = ["9223372036854775807", "9223372036854775808", "12.345678901234567890", "18446744073709551616", "10,000,000,000,000,000,000", "1234567890123456789012345678", "0.1234567890123456789012345678", "79228162514264337593543950335"];
+        for lit in lits {
+            for (shape, text, f) in [
+                ("plus-one", format!("({} X + 1 X)", lit), 0u8),
+                ("minus-self", format!("({} X - {} X + 3 X)", lit, lit), 1),
+                ("negated", format!("(-{} X)", lit), 2),
+                ("times-one", format!("({} X * 1)", lit), 3),
+            ] {
+                if !ctx.next_is_mine() {
+                    ctx.skip_cases(1);
+                    continue;
+                }
+                ctx.case(
+                    || format!("long literal in an expression [{}]: {}", shape, text),
+                    || {
+                        let v = Q::parse(&lit.replace(',', ""));
+                        let want = match f {
+                            0 => v.add(Q::int(1)),
+                            1 => Q::int(3),
+                            2 => v.neg(),
+                            _ => v,
+                        };
+                        if f == 0 && lit == "79228162514264337593543950335" {
+                            return Outcome::dont_care("long-literal/result-out-of-range");
+                        }
+                        for cx in [Cx::Eval, Cx::Posting] {
+                            let got: Result<QMap, String> = match cx {
+                                Cx::Eval => oka::with_ledger(&[(oka::ROOT, PRELUDE)], oka::ROOT, None, |r| {
+                                    let (l, c) = r.expect("prelude must load");
+                                    l.eval(c, &text, &EvalContext { date: oka::date(2024, 1, 1), exchange: None }).map(|a| oka::amount_to_qmap(&a)).map_err(|e| format!("{:?}", e))
+                                }),
+                                _ => oka::process_text(&format!("{}2024/01/01 t\n  A  {}\n  B\n", PRELUDE, text)).map(|(_, txns)| txns.last().unwrap().postings[0].amount.clone()).map_err(|e| e.variant),
+                            };
+                            match got {
+                                Err(e) => return Outcome::violation(format!("long-literal/well-typed-rejected/{}", shape), format!("[{:?}] {} should be {} X but was rejected: {}", cx, text, want, e)),
+                                Ok(m) => {
+                                    let g = m.get("X").copied().unwrap_or(Q::ZERO);
+                                    if g != want || m.iter().any(|(c, v)| c != "X" && !v.is_zero()) {
+                                        return Outcome::violation(format!("long-literal/value-differs/{}", shape), format!("[{:?}] {} should be {} X but is {}", cx, text, want, qmap_show(&m)));
+                                    }
+                                }
+                            }
+                        }
+                        Outcome::pass(format!("long-literal/{}", shape))
+                    },
+                );
+            }
+        }
+    }
     // history independence: an expression that is refused (too deep, too long, ill-typed, malformed) must leave nothing
     // behind. After each "poison" the same small expression is evaluated 1 500 times on the same thread, through
     // Ledger::eval and as 1 500 postings of one ledger; every evaluation must give exactly 7 X.
